@@ -20,6 +20,17 @@ fn run_once(pre: &str) -> String {
     SLOWEST_MS.fetch_max(t0.elapsed().as_millis() as u64, std::sync::atomic::Ordering::SeqCst);
     r
 }
+/// one run on a given (possibly already used) InstructionSet
+fn run_with(iset: &mut pushr::push::instructions::InstructionSet, pre: &str) -> String {
+    let t0 = std::time::Instant::now();
+    let r = std::panic::catch_unwind(std::panic::AssertUnwindSafe(|| {
+        let mut st = dec_state(&parse_line(pre).unwrap()[0]).unwrap();
+        PushInterpreter::run(&mut st, iset);
+        enc_state(&st)
+    }));
+    SLOWEST_MS.fetch_max(t0.elapsed().as_millis() as u64, std::sync::atomic::Ordering::SeqCst);
+    r.unwrap_or("PANIC".to_string())
+}
 fn run_once_inner(pre: &str) -> String {
     let r = std::panic::catch_unwind(|| {
         let mut st = dec_state(&parse_line(pre).unwrap()[0]).unwrap();
@@ -137,24 +148,43 @@ pub fn run(seed: u64, tier: &str, out: &mut dyn FnMut(String)) {
             let nid = next_node_id();
             let fresh = |p: String| std::thread::spawn(move || run_once(&p)).join().unwrap_or("PANIC".to_string());
             let mut posts = vec![fresh(pre.clone())];
+            // six perturbed states: ONE operand changed each (an integer or a float near the top of its stack)
+            let mut perturbed: Vec<String> = vec![];
             for _ in 0..6 {
                 let mut v = dec_state(&parse_line(&pre).unwrap()[0]).unwrap();
-                let n = v.int_stack.size();
-                if n > 0 {
-                    let pos = r.below(n.min(4) as u64) as usize;
+                let ni = v.int_stack.size();
+                let nf = v.float_stack.size();
+                if nf > 0 && (ni == 0 || r.chance(1, 2)) {
+                    let pos = r.below(nf.min(4) as u64) as usize;
+                    let d = *r.pick(&[-1.5f32, -0.5, 0.25, 0.5, 1.0, 1.5707964]);
+                    if let Some(x) = v.float_stack.get_mut(pos) {
+                        *x += d;
+                    }
+                } else if ni > 0 {
+                    let pos = r.below(ni.min(4) as u64) as usize;
                     let d = *r.pick(&[-8i32, -5, -3, -2, -1, 1, 2, 3, 5, 8]);
                     if let Some(x) = v.int_stack.get_mut(pos) {
                         *x = x.saturating_add(d).min(2000);
                     }
                 }
-                if r.chance(1, 3) {
-                    if let Some(x) = v.float_stack.get_mut(0) {
-                        *x += 0.5;
-                    }
-                }
-                let _ = run_once(&enc_state(&v));
+                perturbed.push(enc_state(&v));
             }
-            posts.push(run_once(&pre));
+            // one thread and ONE InstructionSet for the whole warm sequence: each perturbed state runs first, then the
+            // original again - anything remembered from the perturbed run (a cache in a static, a thread-local, or a
+            // registered closure, keyed by only part of the operands) would show in the original's outcome
+            let pre2 = pre.clone();
+            let warm: Vec<String> = std::thread::spawn(move || {
+                let mut iset = make_iset(false);
+                let mut outv = vec![];
+                for p in perturbed.iter() {
+                    let _ = run_with(&mut iset, p);
+                    outv.push(run_with(&mut iset, &pre2));
+                }
+                outv
+            })
+            .join()
+            .unwrap_or_else(|_| vec!["PANIC".to_string()]);
+            posts.extend(warm);
             posts.push(fresh(pre.clone()));
             out(format!("( detrun {} {} {} )", pre, enc_list(&posts), nid));
         }
